@@ -47,6 +47,10 @@ type Violation struct {
 
 func (v Violation) Sig() string {
 	s := v.Clause
+	if v.Clause == "api-panic" || v.Clause == "goroutine-panic" {
+		// a panic is identified by the gengine function it came out of, whatever the entry point
+		return s + "/" + v.Detail
+	}
 	if v.Method != "" {
 		s += "/" + v.Method
 	}
